@@ -1,7 +1,8 @@
 //! C18 extension: the AIGER parser on raw bytes against the byte-level Lean model
 //! `OxiddModel.AigerParse` (protocol `aigparse`).
 //!
-//! One operation line = one input: `p <check_acyclic 0|1> <bytes as hex | ->`. The real
+//! One operation line = one input: `p <check_acyclic 0|1> <bytes as hex | ->` (`q …`: the same, but
+//! run in spite of the resource rule below; used by the regression case). The real
 //! `oxidd_parser::aiger::parse` runs under `catch_unwind`; the output line is
 //!
 //! * `OK <canonical problem>`: every field of the `Problem` — circuit input count and names, AND
@@ -548,13 +549,14 @@ impl Scenario for Sc {
     }
     fn step(&mut self, line: &str, ctx: &mut Ctx) -> String {
         let w = words(line);
-        if w.len() != 3 || w[0] != "p" || (w[1] != "0" && w[1] != "1") {
+        if w.len() != 3 || (w[0] != "p" && w[0] != "q") || (w[1] != "0" && w[1] != "1") {
             return "bad-op".into();
         }
         let Some(bytes) = unhex(w[2]) else {
             return "bad-op".into();
         };
-        if !self.no_skip && too_big(&bytes) {
+        // `q`: a regression line that is run in spite of the resource rule
+        if !self.no_skip && w[0] == "p" && too_big(&bytes) {
             ctx.count("skip");
             return "SKIP".into();
         }
@@ -603,6 +605,9 @@ impl Scenario for Sc {
             if !self.outs[0].starts_with("OK") {
                 ctx.fail("valid-rejected", &format!("generated valid file is not accepted: {}", self.outs[0]));
             }
+        }
+        if ctx.case.starts_with("case regress-justice-sum") && out != "ERR" {
+            ctx.fail("justice-sum-regression", &format!("17 justice properties of usize::MAX/16 literals each must give a diagnostic, got {}", out));
         }
         if ctx.case.starts_with("case perm") && !out.starts_with("OK") && self.outs.len() == 1 {
             ctx.fail("valid-rejected", &format!("generated valid (renumbered) aag file is not accepted: {}", out));
@@ -1065,17 +1070,19 @@ fn generate(cfg: &GenCfg, rng: &mut Rng, w: &mut dyn Write) {
     for f in [&b"aag 10000 0 0 0 0\n"[..], b"aag 9999 0 0 0 0\n", b"aag 1152921504606846975 0 0 0 0\n", b"aag 1152921504606846976 0 0 0 0\n", b"aag 0 0 0 0 0 0 0 1\n010000\n", b"aag 0 0 0 0 0\nc 10000"] {
         emit(w, true, f);
     }
-    if cfg.extra.get("kf-candidates").map(|s| s == "1").unwrap_or(false) {
-        // `justice_len.iter().sum()` overflows (17 justice properties of usize::MAX/16 literals each):
-        // not generated by default because every line of it is skipped by the resource rule; see
-        // REPORT.md of ext-c18-parser
-        writeln!(w, "case kf-candidate-aig-justice-sum").unwrap();
-        for fmt in ["aag", "aig"] {
-            let mut f = format!("{} 0 0 0 0 0 0 0 17\n", fmt).into_bytes();
-            for _ in 0..17 {
+    // regression of the repaired justice-sum overflow (commit a6ab3b1 of /repo): 17 justice
+    // properties of usize::MAX/16 literals each; `q` lines are run in spite of the resource rule
+    // (the fixed parser bounds the reservation by the input length) and must give a diagnostic
+    writeln!(w, "case regress-justice-sum").unwrap();
+    for fmt in ["aag", "aig"] {
+        for n in [16usize, 17, 18, 40] {
+            let mut f = format!("{} 0 0 0 0 0 0 0 {}\n", fmt, n).into_bytes();
+            for _ in 0..n {
                 f.extend(b"1152921504606846975\n");
             }
-            emit(w, true, &f);
+            for acyc in [0, 1] {
+                writeln!(w, "q {} {}", acyc, hex(&f)).unwrap();
+            }
         }
     }
 }
